@@ -37,7 +37,7 @@ def replay(path):
 
 def extra(chk, info, res):
     from checks import decisions_common as _dc
-    _dc.tie(chk, ['swim_timed', 'winter_swim'])
+    _dc.tie(chk, ['swim_timed', 'winter_swim', 'guards_swim'])
     from checks import guards_common
     guards_common.correspondence(chk, ['filtration_allow_swim', 'filtration_is_wintering'])
     from checks import winter_common
